@@ -12,6 +12,7 @@ type GenOpts struct {
 	Kinds        []TKind
 	WrapPct      int  // chance that argument expressions are wrapped in rt.A
 	ShadowPct    int  // chance that Params come from variables named like generated identifiers
+	LineDirPct   int  // chance that //line comments with decreasing line numbers sit between the directive's arguments
 	ImportPct    int  // chance that some functions of a flow come from a helper package, with value types from packages the file imports / does not import
 	Wide         int  // also generate this many wide programs (GenWide)
 	ParMatrix    bool // also generate the systematic signature matrix of Parallel programs (GenParMatrix)
@@ -31,6 +32,7 @@ func DefaultOpts() GenOpts {
 		WrapPct:    40,
 		BarePct:    12,
 		ImportPct:  20,
+		LineDirPct: 10,
 		GenericPct: 15,
 		MaxColl:    3,
 		EndPct:     40,
@@ -226,6 +228,7 @@ func GenFlow(r *Rand, name string, o GenOpts) *Program {
 	if !p.Bare && r.Intn(100) < o.ImportPct {
 		g.importize()
 	}
+	p.LineDirs = r.Intn(100) < o.LineDirPct
 	if !p.Bare && !p.Wrap && len(f.Results) > 0 && r.Chance(1, 2) {
 		f.ResultsVia = true
 	}
@@ -381,6 +384,9 @@ func (g *flowGen) finish() {
 	}
 	if p.AliasImports {
 		feat["helper-imports-aliased"] = true
+	}
+	if p.LineDirs {
+		feat["line-directives-between-arguments"] = true
 	}
 	if p.InMethod {
 		feat["method-encl"] = true
